@@ -552,6 +552,18 @@ func CountOnPaths(fn *ssa.Function, from ssa.Instruction, pred Pred) (min, max i
 // CountOnPathsTo is CountOnPaths restricted to paths that end in a return
 // satisfying goal.
 func CountOnPathsTo(fn *ssa.Function, from ssa.Instruction, pred Pred, goal func(*ssa.Return) bool) (min, max int) {
+	return CountOnPathsToW(fn, from, func(in ssa.Instruction) (int, int) {
+		if pred(in) {
+			return 1, 1
+		}
+		return 0, 0
+	}, goal)
+}
+
+// CountOnPathsToW is CountOnPathsTo with a weight per instruction: an
+// instruction contributes between lo and hi occurrences (a call whose callee
+// performs the operation counts with the callee's own range).
+func CountOnPathsToW(fn *ssa.Function, from ssa.Instruction, weight func(ssa.Instruction) (int, int), goal func(*ssa.Return) bool) (min, max int) {
 	// blocks from which a goal return is reachable
 	can := map[*ssa.BasicBlock]bool{}
 	changed := true
@@ -603,13 +615,12 @@ func CountOnPathsTo(fn *ssa.Function, from ssa.Instruction, pred Pred, goal func
 	for steps := 0; len(work) > 0 && steps < 100000; steps++ {
 		it := work[0]
 		work = work[1:]
-		c := 0
+		cl, ch := 0, 0
 		for i := it.i0; i < len(it.b.Instrs); i++ {
-			if pred(it.b.Instrs[i]) {
-				c++
-			}
+			l, h := weight(it.b.Instrs[i])
+			cl, ch = cl+l, ch+h
 		}
-		out := mm{sat(it.s.lo + c), sat(it.s.hi + c)}
+		out := mm{sat(it.s.lo + cl), sat(it.s.hi + ch)}
 		if r, ok := it.b.Instrs[len(it.b.Instrs)-1].(*ssa.Return); ok && it.b.Comment != "recover" && goal(r) {
 			if out.lo < min {
 				min = out.lo
